@@ -430,6 +430,12 @@ func runC13(c *fw.Case) (o fw.Outcome) {
 	if len(a.nas) == 0 && r.Intn(2) == 0 {
 		a.nas = nil // a NAS-PDU of length 0 in its other Go spelling (the zero value of []byte)
 	}
+	if len(a.nas) >= 2 && r.Intn(4) == 0 {
+		// a NAS-PDU is an opaque OCTET STRING to NGAP, also when its first octets READ AS a NAS header (5GMM / 5GSM
+		// discriminator, a security header type) in front of fewer octets than such a message would have
+		a.nas = a.nas[:minInt(len(a.nas), pick(r, 2, 3, 4, 5, 6, 7, len(a.nas)))]
+		a.nas[0], a.nas[1] = pick(r, byte(0x7e), 0x7e, 0x2e), byte(pick(r, 0, 1, 2, 3, 4, 0xf3, r.Intn(256)))
+	}
 	a.ipv4 = pick(r, "0.0.0.0", "255.255.255.255", "10.0.0.1", "192.168.61.3", "127.0.0.1", net.IP(rbytes(r, 4)).String(), ipv4Class(r).String(), ipv4Class(r).String())
 	if r.Intn(6) == 0 { // the same IPv4 address in the IPv4-mapped notations net.ParseIP also reads as IPv4 (To4 != nil)
 		ip := net.ParseIP(a.ipv4).To4()
